@@ -226,7 +226,25 @@ def strict_parse(data):
             rd = (int.from_bytes(data[off:off + 2], 'big'), int.from_bytes(data[off + 2:off + 4], 'big'), int.from_bytes(data[off + 4:off + 6], 'big'), _nm(tl))
         elif t in (1, 28):
             raise Reject                        # address record with a wrong rdlength
-        # HINFO, NSEC and unknown types: rdata not compared (totality only)
+        elif t == 13:
+            # HINFO: exactly two <character-string>s filling the rdata (RFC 1035 3.3.2); the record itself is not compared
+            p_ = off
+            for _ in range(2):
+                if p_ >= end or p_ + 1 + data[p_] > end:
+                    raise Reject
+                p_ += 1 + data[p_]
+            if p_ != end:
+                raise Reject
+        elif t == 47:
+            # NSEC: a name, then bitmap windows (window, length 1..32, bytes) filling the rdata (RFC 4034 4.1); not compared
+            tl, p_ = _strict_name(data, off)
+            while p_ < end:
+                if p_ + 2 > end or not 1 <= data[p_ + 1] <= 32 or p_ + 2 + data[p_ + 1] > end:
+                    raise Reject
+                p_ += 2 + data[p_ + 1]
+            if p_ != end:
+                raise Reject
+        # HINFO, NSEC (well-formedness only, above) and unknown types: rdata not compared
         rs.append(None if rd is None else (_nm(labels), t, c, ttl, rd))
         off = end
     if off != len(data):
@@ -316,9 +334,24 @@ def bounded_checks(run, tier, seed):
             d = bytearray(base)
             d[b // 8] ^= 1 << (b % 8)
             one(bytes(d), kind + '-bitflip')
+    # offset sweep: a padding record of 1..300 bytes moves later names (and the mid-name pointer targets in them) through every offset residue,
+    # below and above 256; names share suffixes so that the encoder emits pointers into the middle of earlier names
+    from zeroconf._dns import DNSNsec
+    for pad in range(1, 301):
+        o = DNSOutgoing(const._FLAGS_QR_RESPONSE | const._FLAGS_AA)
+        o.add_answer_at_time(DNSPointer('_x._tcp.local.', const._TYPE_PTR, const._CLASS_IN, 4500, 'Inst._x._tcp.local.'), 0)
+        o.add_answer_at_time(DNSText('Inst._x._tcp.local.', const._TYPE_TXT, const._CLASS_IN | const._CLASS_UNIQUE, 4500, bytes([pad % 256]) * pad), 0)
+        o.add_answer_at_time(DNSAddress('printer.office.example.', const._TYPE_A, const._CLASS_IN | const._CLASS_UNIQUE, 120, b'\x0a\x00\x00\x01'), 0)
+        o.add_answer_at_time(DNSAddress('other.office.example.', const._TYPE_A, const._CLASS_IN | const._CLASS_UNIQUE, 120, b'\x0a\x00\x00\x02'), 0)
+        o.add_answer_at_time(DNSAddress('third.local.', const._TYPE_A, const._CLASS_IN | const._CLASS_UNIQUE, 120, b'\x0a\x00\x00\x03'), 0)
+        o.add_answer_at_time(DNSAddress('fourth._tcp.local.', const._TYPE_A, const._CLASS_IN | const._CLASS_UNIQUE, 120, b'\x0a\x00\x00\x04'), 0)
+        o.add_answer_at_time(DNSService('Inst._x._tcp.local.', const._TYPE_SRV, const._CLASS_IN | const._CLASS_UNIQUE, 120, 0, 0, 80, 'host.office.example.'), 0)
+        o.add_answer_at_time(DNSPointer('_x._tcp.local.', const._TYPE_PTR, const._CLASS_IN, 4500, 'Second._x._tcp.local.'), 0)
+        for pk in o.packets():
+            one(pk, 'offset-sweep-%d' % pad)
     return {'decoder-totality-and-faithfulness': {
         'evaluations': n, 'violations': list(viol.values()),
         'bound': 'every byte string over %s of length <= %d behind a query header (1 question) and a response header (1 answer); pointer '
                  'chains of depth 1..4000 and small compression graphs; one encoder-made response (PTR, SRV, TXT, A, AAAA) and query with every '
-                 'truncation and %s single-bit flips; compared with an independent strict RFC 1035 parser whenever that accepts'
+                 'truncation and %s single-bit flips; 300 eight-record responses whose later names are shifted through every offset residue by a padding record; compared with an independent strict RFC 1035 parser whenever that accepts'
                  % ([hex(a) for a in alpha], L, 'all' if tier != 'quick' else '400 random')}}
